@@ -1,8 +1,8 @@
 import H264.Sei
 import H264.NalSrcProofs
 import H264.SeiMono
-import H264.Tables2
-import H264.TblProof
+import H264.Tables2C10
+import H264.TblProofC10
 /-! # C10 — SEI reader yields exactly the encoded (type, payload) messages, then stays ended
 
 Model: `Sei.next` mirrors `SeiReader::next` over the bytes the RBSP byte reader delivers (`NalSrc.drain`: bytes
